@@ -589,11 +589,14 @@ Definition collect_addrs (f : filter) : list string :=
                        | (_, k, VStr s) => if json_addr_key k then [s] else []
                        | (_, k, VStrs l) => if json_addr_key k then l else []      (* $in arrays: exact addresses *)
                        | _ => [] end) (flt_leaves f).
+(* needSegments: only STRING-valued address filters can be partial ($in elements never set it) *)
+Definition need_segments (f : filter) : bool :=
+  existsb (fun okv => match okv with (_, k, VStr s) => json_addr_key k && is_partial s | _ => false end) (flt_leaves f).
 Definition uses_key (p : fkey -> bool) (f : filter) : bool := existsb (fun okv => p (snd (fst okv))) (flt_leaves f).
 Definition is_meta_key (k : fkey) : bool := match k with KMeta _ | KMetadata => true | _ => false end.
 Definition flt_prefilter (R : fresource) (pit : bool) (f : filter) : option (list string) :=
   let addrs := collect_addrs f in
-  let need := existsb is_partial addrs in
+  let need := need_segments f in
   let can := safe_lateral false f in
   match R with
   | RVol => if need && can then Some addrs else None
